@@ -1209,7 +1209,42 @@ func ruleStopClosesWhatIsOpen(c *Ctx, rid string) {
 			f := strings.ReplaceAll(strings.Join(fs, "+"), "redis.Server.", "")
 			key := fmt.Sprintf("%s/close:%s", fnName(fn), f)
 			bad := ""
-			for _, at := range factsAt(ins.Block()) {
+			// the conditions on the way to the Close: those inside this function and, when the
+			// listener was handed in through a pointer parameter of an unexported helper
+			// (closeListener(&server.portListener)), those on the way to each call of the helper
+			atoms := factsAt(ins.Block())
+			{
+				cur, seenFn := fn, map[*ssa.Function]bool{}
+				for d := 0; d < 3 && cur != nil && !seenFn[cur] && valueFromParam(recv); d++ {
+					seenFn[cur] = true
+					if cur.Object() != nil && cur.Object().Exported() {
+						break
+					}
+					cs, only := c.P.onlyStaticallyCalled(cur)
+					if !only || len(cs) == 0 {
+						break
+					}
+					var next *ssa.Function
+					for _, ci := range cs {
+						atoms = append(atoms, factsAt(ci.Block())...)
+						next = ci.Parent()
+					}
+					if len(cs) != 1 {
+						break
+					}
+					cur = next
+					recv = nil
+					for _, a := range cs[0].Common().Args {
+						if valueFromParam(a) {
+							recv = a
+						}
+					}
+					if recv == nil {
+						break
+					}
+				}
+			}
+			for _, at := range atoms {
 				switch at.Kind {
 				case "nil":
 					if fs2, ok := fieldsBehind(at.X); ok {
@@ -1418,4 +1453,30 @@ func ruleNoConcurrentMapAccess(c *Ctx, rid string) {
 	}
 	c.count("shared-maps-written", nf)
 	c.floor("shared-maps-written", 2)
+}
+
+// valueFromParam: the value is (a load through / a phi of) a parameter of its function.
+func valueFromParam(v ssa.Value) bool {
+	for k := 0; k < 6 && v != nil; k++ {
+		switch x := v.(type) {
+		case *ssa.Parameter:
+			return true
+		case *ssa.UnOp:
+			v = x.X
+		case *ssa.ChangeInterface:
+			v = x.X
+		case *ssa.MakeInterface:
+			v = x.X
+		case *ssa.Phi:
+			for _, e := range x.Edges {
+				if valueFromParam(e) {
+					return true
+				}
+			}
+			return false
+		default:
+			return false
+		}
+	}
+	return false
 }
